@@ -348,7 +348,7 @@ ROUND6_RULES = {
     "C04": "A third of the healthy clusters run on a node-aware transport that routes by the name in the address.",
     "C05": "Half of the crashes of the fault phase are frozen processes (socket open, nothing answers); (cursor) the probe schedule tick by tick, with suspected members, against the cursor model.",
     "C06": "(probe) real probe rounds against silent, late and answering peers: who signs the suspicion queued on the node's own evidence; a third of the timer histories contain suspicion - refutation - new suspicion - expiry of the first timer.",
-    "C07": "(stir) gossip / push-pull / probe ticks at once: every member listed exactly once afterwards.",
+    "C07": "(stir) gossip / push-pull / probe ticks at once: every member listed exactly once afterwards; (boot) a packet that is already waiting when Create starts the listeners - gossip about the node itself or about another member - handled before setAlive: the event log must replay to Members().",
     "C09": "(auth) joins between a keyed host (label, inbound check checked or delegated) and a joiner with the same or another key and label, against sealedStreamAdmitted; (hist) timer histories with the stale-timer chain.",
     "C12": "(pkt) a real sender packs membership and user queues (also hundreds of 0-2 byte parts) through gossip() or sendMsg(), a real receiver unpacks; (aliveport) alive messages with ports 0 / own / foreign through the real handleAlive on receivers speaking protocol versions 1-5, against alivePort.",
     "C13": "A third of the stream-campaign receivers have no Delegate; the complete stream is fed as well.",
@@ -370,3 +370,4 @@ ROUND6_LEVEL = {
 }
 for _p, _t in ROUND6_LEVEL.items():
     PROPS[_p]["level_text"] = PROPS[_p]["level_text"] + _t
+PROPS["C07"]["level_note"] += " Known finding C07-startup-double-join: gossip about the node itself handled between the start of the listeners and setAlive delivers the node's own join twice (DESIGN section 12)."
